@@ -23,7 +23,7 @@ COMPONENTS = dict(real='pytableaux.tools.hybrids.qset, pytableaux.tools.linked.l
                   stub='none')
 
 def plan(tier):
-    return dict(runs=24000 if tier == 'quick' else 2400000, timeout=240 if tier == 'quick' else 5400)
+    return dict(runs=24000 if tier == 'quick' else 2400000, timeout=900 if tier == 'quick' else 5400)
 
 # -- exhaustive part: every history over a small operation alphabet up to a depth bound
 
